@@ -7,7 +7,7 @@ NEEDS = {
  "C45-merge-autoflush-only-when-new": "merge() into an autoflush session that holds an unflushed delete or primary-key change for the merged identity (or a cascaded member) and no pending new object at all",
  "C46-composite-partial-expire-kept": "composite() over two or more columns, value already loaded, expire(obj, [one of its columns]) then reading the composite before the column",
  "C47-postload-queries-skip-autoflush": "selectinload / immediateload query consumed as a stream (yield_per) with pending changes made between two batches",
- "C48-partial-expire-drops-strong-ref": "pending change on a persistent object, then expire/refresh of *other* attributes, no further change, every reference dropped and gc before the flush (two cooperating edits)",
+ "C48-partial-expire-strong-ref-modified-discard": "pending change on a persistent object, then expire/refresh of *other* attributes, no further change, every reference dropped and gc before the flush (two cooperating edits)",
  "C49-set-listener-unlink-before-coerce": "assignment that the Mutable type rejects (coerce raises ValueError) caught by the application, then in-place mutation of the surviving old value",
  "C02-construct-params-cachekey-fallback": "cache hit on a Compiled first populated by a statement built with Executable.params(); a later equal-key statement run without any parameters",
  "C02-construct-params-skips-extracted": "cache hit across statements that differ only in an inline literal + execute-time parameter dict with extra (unused) keys",
